@@ -34,7 +34,7 @@ CLAIMED = {
             "front of Vault with the exact status table; TLC checks GateNoEffect / StatusExact / PrincipalExact over the full request-class product "
             "in every store state. Every emitted row is sent as a concrete request (several representatives per class) to the real mux: status, "
             "body (no secret bytes unless 200, empty on 304), audit sink and store untouched when refused, principal recorded and rules applied.",
-            "WhoIs never returns nil Node/UserProfile; trailing garbage after a valid JSON body is outside the listed classes. Quick tier rotates the "
+            "WhoIs never returns nil Node/UserProfile; a body with trailing data after a valid JSON value is only used as a read-only primer before malformed requests. Quick tier rotates the "
             "non-conforming representatives with the seed.",
             "TLC exhaustive request-class graph of Http.tla replayed on the real HTTP mux",
             "DESIGN.md §4 C08"),
